@@ -37,6 +37,9 @@ out.append("def templatePkg : String := %s\n" % s(facts["templatePkg"]))
 out.append("def deps : List (String × String) := [%s]\n" % ", ".join("(%s, %s)" % (s(k), s(v)) for k, v in facts["deps"]))
 out.append("def handlerReachableWrites : List (String × String × Bool) := [%s]\n" % ", ".join(
     "(%s, %s, true)" % (s(w["func"]), s(w["target"])) for w in (facts["writes"] or []) if w["handler_reachable"]))
+out.append("def sharedFields : List (String × String × String) := [")
+out.append(",\n".join("  (%s, %s, %s)" % (s(f[0]), s(f[1]), s(f[2])) for f in facts["shared"]["fields"]))
+out.append("]\n")
 out.append("end Expected")
 open(os.path.join(ROOT, "lean/SamlModel/Model/Expected.lean"), "w").write("\n".join(out) + "\n")
 print("written")
